@@ -316,6 +316,7 @@ def run_spawn(spec, layer_name='samplelayers.LayerX', verbose=0,
         'done': bool(result.done),
         'stdout': list(result.stdout),
         'queue': _drain(q),
+        'children': len(factory.created),
         'killed': p.killed if p else None,
         'reaped': p.reaped if p else None,
         'output_calls': out.names(),
